@@ -1,5 +1,5 @@
 (* C17 - 3.11+ exception and position tables decode as CPython decodes them. *)
-From Xdis Require Import Base.Prelude Base.Result Model.CoLines Model.ExcTable Spec.Loc311 Spec.ExcTable
+From Xdis Require Import Base.Prelude Base.Result Model.CoLines Model.ExcTable Model.Listing Spec.Loc311 Spec.ExcTable
   Proofs.Loc311Proofs Proofs.ExcTableProofs.
 
 (* Exception table: for every list of entries, each of its four varints of any length
@@ -7,6 +7,12 @@ From Xdis Require Import Base.Prelude Base.Result Model.CoLines Model.ExcTable S
 Theorem C17_exception_table : forall es, forallb xentry_ok es = true ->
   parse_exception_table (encode_xtable es) = map sem_xentry es.
 Proof. exact exc_roundtrip. Qed.
+
+(* ... and the "ExceptionTable:" section a listing prints for that table has the heading and then exactly one line per entry,
+   in order, each showing the entry's start, inclusive end (end - 2), target, depth and lasti *)
+Theorem C17_exception_section : forall es, forallb xentry_ok es = true ->
+  exc_lines (parse_exception_table (encode_xtable es)) = s2z "ExceptionTable:" :: map (fun x => exc_line (sem_xentry x)) es.
+Proof. intros es H. unfold exc_lines. rewrite (exc_roundtrip es H), map_map. reflexivity. Qed.
 
 (* Location table -> co_lines(): for every list of well-formed entries (all five forms,
    every varint length, negative line deltas), xdis's Code311.co_lines() on the encoded
